@@ -6,6 +6,28 @@ Prints one line per check: detected / missed.  /repo is always restored (git che
 """
 import json, os, subprocess, sys
 
+def in_worktree(patch, props, tier):
+    wt = f"/tmp/tryseed_wt_{os.getpid()}"
+    subprocess.run(["git", "-C", "/repo", "worktree", "add", "-q", "--detach", wt, "HEAD"], check=True)
+    results = {}
+    try:
+        wip = subprocess.run(["git", "-C", "/repo", "diff"], capture_output=True, text=True).stdout
+        if wip.strip():
+            subprocess.run(["git", "-C", wt, "apply"], input=wip, text=True, check=True)
+        r = subprocess.run(["git", "-C", wt, "apply", patch], capture_output=True, text=True)
+        if r.returncode != 0:
+            print("patch does not apply:", r.stderr[:300]); sys.exit(2)
+        env = dict(os.environ, BINGO_REPO=wt)
+        for p in props:
+            out = subprocess.run(["./check", p, "--tier", tier], cwd="/verif", capture_output=True, text=True, env=env)
+            lines = [l for l in out.stdout.split("\n") if l.startswith("VIOLATION") or l.startswith(p + " [")]
+            results[p] = {"exit": out.returncode, "lines": lines[:4]}
+            print(p, "DETECTED" if out.returncode == 1 else ("MISSED" if out.returncode == 0 else f"INFRA({out.returncode})"), "|", " || ".join(l[:160] for l in lines[:3]))
+    finally:
+        subprocess.run(["git", "-C", "/repo", "worktree", "remove", "--force", wt])
+    return results
+
+
 def main():
     d = sys.argv[1]
     meta = json.load(open(os.path.join(d, "meta.json")))
@@ -18,8 +40,10 @@ def main():
             tier = sys.argv[i + 1]
     patch = os.path.abspath(os.path.join(d, "patch.diff"))
     st = subprocess.run(["git", "-C", "/repo", "status", "--porcelain", "--untracked-files=no"], capture_output=True, text=True).stdout
-    if st.strip():
-        print("refusing: /repo has local modifications"); sys.exit(2)
+    if st.strip() or "--worktree" in sys.argv:
+        # /repo carries work in progress (or the caller asked for it): run against a scratch worktree that mirrors /repo's
+        # working tree (HEAD + uncommitted diff) with the seeded change on top; /repo itself is not touched
+        return in_worktree(patch, props, tier)
     r = subprocess.run(["git", "-C", "/repo", "apply", patch], capture_output=True, text=True)
     if r.returncode != 0:
         print("patch does not apply:", r.stderr[:300]); sys.exit(2)
